@@ -7,6 +7,7 @@ import (
 	"fmt"
 	"io"
 	"net/http"
+	"os/exec"
 	"strings"
 	"sync"
 	"time"
@@ -383,7 +384,7 @@ func runC07(c *Ctx) {
 				}
 			}
 		})
-		mcp.VerifAttachStdio(sc, toSrv.Writer(), fromSrv.Reader(), errp.Reader(), exited, func(n string, f func()) { s.GoLib("cl/"+n, f) })
+		mcp.VerifAttachStdio(sc, toSrv.Writer(), fromSrv.Reader(), errp.Reader(), func(cmd *exec.Cmd) { s.RegisterProc(cmd, exited, func() error { return nil }) }, func(n string, f func()) { s.GoLib("cl/"+n, f) })
 		cl = sc
 		push = func(b string) { io.WriteString(out, b) }
 		pushReady = func() bool { return true }
